@@ -48,8 +48,8 @@ def run(rep, tier):
             for kl in (0, 1, 32, 63, 64, 65, 100):
                 for n in ((0, 9) if tier == "quick" else (0, 1, 9, 33)):
                     cases.append((js, cname, layout, "case_hmac", (a, kl, n), "hmac%s key %d message %d" % (sfx, kl, n), "ascon_hmac" + sfx))
-            for kl in (0, 16, 33):
-                for cl in (0, 1, 9):
+            for kl in ((0, 8, 16, 33) if tier == "quick" else (0, 1, 7, 8, 9, 16, 31, 32, 33, 64, 100)):
+                for cl in ((0, 1, 8, 9) if tier == "quick" else (0, 1, 7, 8, 9, 16, 17, 32, 33)):
                     for o in (16, 32, 40):
                         cases.append((js, cname, layout, "case_kmac", (a, kl, 9, cl, o),
                                       "kmac%s key %d custom %d output %d" % (sfx, kl, cl, o), "ascon_kmac" + sfx))
